@@ -91,6 +91,83 @@ def run_sync(chunks):
     return data, list(t.socket.sock.sent), parts
 
 
+class _SockSeq:
+    """a Socket stand-in that serves one tape per open(): the same transport object is opened, used and closed several times"""
+
+    def __init__(self, tapes):
+        self.tapes = list(tapes)
+        self.sock = None
+        self.alive = False
+        self.sent_all = []
+
+    def open(self):
+        self.sock = _RawSock(self.tapes.pop(0))
+        self.alive = True
+
+    def isalive(self):
+        return self.alive
+
+    def close(self):
+        if self.sock is not None:
+            self.sent_all.append(list(self.sock.sent))
+        self.alive = False
+
+
+def run_sync_sessions(tapes):
+    """one TelnetTransport object through open / read to EOF / close for every tape, using the transport's own open() and close()"""
+    from scrapli.transport.plugins.telnet.transport import PluginTransportArgs, TelnetTransport
+    import scrapli.transport.plugins.telnet.transport as tm
+    t = TelnetTransport(_targs(), PluginTransportArgs())
+    seq = _SockSeq([list(tp) for tp in tapes])
+    real = tm.Socket
+    tm.Socket = lambda **kw: seq          # close() drops the socket object, open() asks for a new one
+    out = []
+    try:
+        for tp in tapes:
+            t.open()
+            data, parts = b"", []
+            for _ in range(len(tp) + 3):
+                parts.append(t.read())
+                data += parts[-1]
+                if t._eof:
+                    break
+            sent = list(seq.sock.sent)
+            t.close()
+            out.append((data, sent, parts))
+    finally:
+        tm.Socket = real
+    return out
+
+
+async def run_async_sessions(tapes):
+    import asyncio as _aio
+    from scrapli.transport.plugins.asynctelnet.transport import AsynctelnetTransport, PluginTransportArgs
+    t = AsynctelnetTransport(_targs(), PluginTransportArgs())
+    pending = [list(tp) for tp in tapes]
+    real = _aio.open_connection
+
+    async def fake_open_connection(host=None, port=None, **kw):
+        return _Reader(pending.pop(0)), _Writer()
+
+    _aio.open_connection = fake_open_connection
+    out = []
+    try:
+        for tp in tapes:
+            await t.open()
+            data, parts = b"", []
+            for _ in range(len(tp) + 3):
+                parts.append(await t.read())
+                data += parts[-1]
+                if t._eof:
+                    break
+            sent = list(t.stdin.sent)
+            t.close()
+            out.append((data, sent, parts))
+    finally:
+        _aio.open_connection = real
+    return out
+
+
 class _Reader:
     def __init__(self, chunks):
         self.chunks = list(chunks)
@@ -287,6 +364,45 @@ def run(tier, seed):
                         adv_dis += 1
                 else:
                     ck.traces_validated += 1
+    # histories on ONE transport object: session 1 (0 / 9 / 10 / 11 / 13 commands: below, at and beyond the limit), close, open again,
+    # session 2 inside the quantifier -- a (re-)opened connection is a new session: session 2 must be exactly what a fresh transport gives
+    hist = []
+    for n1 in (0, 9, 10, 11, 13):
+        for _ in range(2 if tier == "quick" else 12):
+            first = b"".join(bytes([255, ck.rng.choice([253, 251, 254, 252]), 1 + (i % 7)]) for i in range(n1)) + b"x\x00y"
+            k1 = ck.rng.randint(0, min(4, len(first) - 1))
+            items2 = gen_random(ck.rng)
+            s2 = render(items2)
+            k2 = ck.rng.randint(0, min(5, max(0, len(s2) - 1)))
+            hist.append((cut(first, ck.rng.sample(range(1, len(first)), k1)) + [b""], items2,
+                         (cut(s2, ck.rng.sample(range(1, len(s2)), k2)) if len(s2) > 1 else [s2]) + [b""]))
+    try:
+        hmodel = run_model("C15", [f"{st} {hexl(t2)}" for _, _, t2 in hist for st in ("sync", "async")])
+    except Exception as e:
+        ck.proof_broken("model driver Drv/C15.lean (histories)", repr(e))
+        hmodel = None
+    for hi, (t1, items2, t2) in enumerate(hist):
+        exp = spec(items2)
+        for si, stack in enumerate(("sync", "async")):
+            try:
+                r = run_sync_sessions([t1, t2]) if stack == "sync" else asyncio.run(run_async_sessions([t1, t2]))
+            except Exception as e:
+                ck.violation({"stack": stack, "history": [[hexs(c) for c in t1], [hexs(c) for c in t2]]}, f"{stack} telnet transport raised {e!r} in an open/close/open history")
+                continue
+            d2, w2, parts2 = r[1]
+            ck.case(("history", stack, tuple(t1), tuple(t2)), nontrivial=True, tags=("reopen-history", f"first-session-cmds={sum(1 for c in b''.join(t1) if c == 255)}"))
+            if (d2, w2) != exp:
+                ck.violation({"stack": stack, "history": [[hexs(c) for c in t1], [hexs(c) for c in t2]], "items_session2": items2,
+                              "got_data": hexs(d2), "got_writes": [hexs(w) for w in w2], "want_data": hexs(exp[0]), "want_writes": [hexs(w) for w in exp[1]]},
+                             f"{stack} telnet transport: the second session on a re-opened transport object differs from the stream's application bytes / RFC replies "
+                             "(state of the first session survived close()/open())")
+            if hmodel is not None:
+                got = f"{hexs(d2)} {hexl(w2)} R={hexl(parts2)}"
+                if got == hmodel[2 * hi + si].strip():
+                    ck.traces_validated += 1
+                else:
+                    ck.disagree(f"Telnet model (fresh session) vs {stack} transport after re-open", {"history": [[hexs(c) for c in t1], [hexs(c) for c in t2]]},
+                                f"impl={got} model={hmodel[2 * hi + si].strip()}")
     ck.extra["out_of_domain_cases_model_vs_code"] = len(adv)
     ck.extra["out_of_domain_disagreements"] = adv_dis
     ck.exhaustive = True
